@@ -1,6 +1,9 @@
 """C13 - type copies are independent and structural hashes match equality.
 (M) TypeGraph.tla model-checked over every type graph within the tier's bounds (the Gen runs check the
 invariants while they emit, so nothing is explored twice); each named deviation must yield a counterexample.
+The transformations include three that change the SHARING structure (unshare / redir / hollow: one reference
+to a user type moves to a twin of its own, to another user type, to an empty type); one run enumerates every
+graph of <= 4 nodes in which a non-recursive user type is referenced from two places.
 (G) every (graph, transformation) pair and every (graph, mutation script) emitted by TLC is executed on the
 real expr.Hash / Equal / Dup / DupAtt (Hash 20x per flag combination, and once more in a fresh process) and
 compared with the model's prediction.
@@ -10,9 +13,12 @@ import hashlib, json, os, subprocess
 from concurrent.futures import ThreadPoolExecutor
 from vlib import core
 
-# deviations found in the real code first; the last two are hypothetical (vacuity guards of the in-place write steps)
+# deviations found in the real code, and hypothetical ones: DEVS[4], DEVS[5] (vacuity guards of the in-place write steps), DEVS[7]
 DEVS = ["hash.union_order_dependent", "hash.meta_iteration_order", "dup.meta_values_shared", "dup.enum_values_shared",
-        "dup.meta_backing_array_shared", "dup.required_backing_array_shared"]
+        "dup.meta_backing_array_shared", "dup.required_backing_array_shared", "hash.recursive_reference_is_prefix",
+        "hash.memo_hit_is_empty_object"]      # the last one hypothetical too (vacuity guard of the sharing transformations)
+REC = DEVS[6]
+SHARING = ("unshare", "redir", "hollow")
 DRIVER = "drivers/expr"
 TRACE = ("trace/Trace_TypeGraph", "trace/Trace_TypeGraph.cfg")
 
@@ -29,13 +35,14 @@ def dec_g(a):
 
 
 def dec_t(a):
-    return {"op": a[0], "node": a[1], "idx": a[2], "perm": a[3], "tags": {"name": a[4], "type": a[5]}}
+    return {"op": a[0], "node": a[1], "idx": a[2], "perm": a[3], "tags": {"name": a[4], "type": a[5]}, "to": a[6]}
 
 
 def dec_vec(v):
     if v["mode"] == "hash":
         return {"mode": "hash", "g": dec_g(v["g"]),
-                "trs": [{"t": dec_t(j[0]), "eq": j[1], "exp": j[2], "st": j[3], "du": j[4], "mu": j[5], "c": j[6]} for j in v["trs"]]}
+                "trs": [{"t": dec_t(j[0]), "eq": j[1], "exp": j[2], "st": j[3], "du": j[4], "mu": j[5], "c": j[6], "na": j[7], "dr": j[8]}
+                        for j in v["trs"]]}
     return {"mode": "dup", "g": dec_g(v["g"]),
             "script": [{"side": s[0], "op": s[1], "node": s[2], "idx": s[3]} for s in v["script"]],
             "pred": {"unch": v["unch"], "canO": dec_g(v["canO"]), "canC": dec_g(v["canC"])}}
@@ -106,7 +113,8 @@ def mini_trace(inp, o):
             if x.get("panic"):
                 ev.append({"ev": "panic", "panic": x["panic"]})
             else:
-                ev.append({"ev": "hash", "t": t, "eq": x["eq"], "st": x["st"], "equal": x["equal"], "equals": x["equals"], "tg": x["tg"]})
+                ev.append({"ev": "hash", "t": dict(t, to=t.get("to", 0)),       # (replay files older than the sharing transformations)
+                           "eq": x["eq"], "st": x["st"], "equal": x["equal"], "equals": x["equals"], "tg": x["tg"]})
         return ev
     if o.get("panic") and not o.get("steps"):
         return ev + [{"ev": "panic", "panic": o["panic"]}]
@@ -198,6 +206,9 @@ def flush_reports(ctx, per_key=3):
     del _PENDING[:]
 
 
+shared_graphs = set()      # digests of the graphs in which a non-recursive user type is referenced from two places
+
+
 def compare_hash(ctx, v, o, o2, nontrivial):
     g = v["g"]
     big = len(g["nodes"]) >= 2 or any(len(n["attrs"]) >= 2 for n in g["nodes"])
@@ -211,14 +222,22 @@ def compare_hash(ctx, v, o, o2, nontrivial):
             report(ctx, "C13/hash/%s/panic" % t["op"], "panic in the real code: %s" % x["panic"][:200], inp, {"observed": x}, why=[])
             continue
         exp = j["exp"]
+        dec = ~j["na"] & 255          # the flag combinations under which the documented rules decide
+        if t["op"] in SHARING:
+            ctx.cov["sharing_cases"][t["op"]] = ctx.cov["sharing_cases"].get(t["op"], 0) + 1
+            ctx.cov["sharing_cases"]["flag_combinations_decided"] += bin(dec).count("1")
+            ctx.cov["sharing_cases"]["flag_combinations_not_decided_by_the_documentation"] += 8 - bin(dec).count("1")
+            if t["op"] == "unshare":
+                shared_graphs.add(digest(g))
         sym = None
         if x["st"] != 255 or not x["equals"]:
             sym = "unstable"
             desc = "expr.Hash gave different answers for the same type within 20 calls (stable flag combinations: %s)" % format(x["st"], "08b")
-        elif x["eq"] != exp:
-            sym = "same-hash-expected-different" if x["eq"] & ~exp & 255 else "different-hash-expected-same"
-            desc = "hash equality per flag combination %s, documented rules say %s" % (format(x["eq"], "08b"), format(exp, "08b"))
-        elif x["equal"] != bool(exp >> 3 & 1):
+        elif (x["eq"] ^ exp) & dec:
+            sym = "same-hash-expected-different" if x["eq"] & ~exp & dec else "different-hash-expected-same"
+            desc = "hash equality per flag combination %s, documented rules say %s%s" % (
+                format(x["eq"], "08b"), format(exp, "08b"), " (undecided: %s)" % format(j["na"], "08b") if j["na"] else "")
+        elif dec >> 3 & 1 and x["equal"] != bool(exp >> 3 & 1):
             sym = "equal-mismatch"
             desc = "expr.Equal = %s, documented rules say %s" % (x["equal"], bool(exp >> 3 & 1))
         elif o2 is not None and o2["trs"][k].get("dig") != x["dig"]:
@@ -227,14 +246,17 @@ def compare_hash(ctx, v, o, o2, nontrivial):
         if sym:
             why = []
             unstable = ~x["st"] & 255
-            if j["du"] != -1 and x["st"] == 255 and x["eq"] == j["du"]:
+            if j["du"] != -1 and x["st"] == 255 and not (x["eq"] ^ j["du"]) & dec:
                 why.append(DEVS[0])
+            if j["dr"] != -1 and x["st"] == 255 and x["equals"] and not (x["eq"] ^ j["dr"]) & dec and x["equal"] == bool(j["dr"] >> 3 & 1):
+                why.append(REC)
             if unstable and not unstable & ~j["mu"] and not (x["eq"] ^ exp) & ~j["mu"] & 255 and x["equals"]:
                 why.append(DEVS[1])
             if sym == "differs-across-processes" and j["mu"]:       # 20 calls happened to agree; the next process did not
                 why.append(DEVS[1])
             report(ctx, hash_key(g, t, sym), "%s on %s of node %s: %s" % (sym, t["op"], t["node"], desc), inp,
-                   {"predicted": {"eq": exp, "st": 255, "eq_under_union_deviation": j["du"], "may_be_unstable_under_meta_deviation": j["mu"]},
+                   {"predicted": {"eq": exp, "undecided": j["na"], "st": 255, "eq_under_union_deviation": j["du"],
+                                  "eq_under_recursive_reference_deviation": j["dr"], "may_be_unstable_under_meta_deviation": j["mu"]},
                     "observed": x}, why=why)
         elif ctx.cov["evaluations"] % 9001 == 0:
             ctx.sample({"graph": g, "transformation": t, "predicted_eq_bits": exp, "observed": x})
@@ -292,6 +314,12 @@ def gen_runs(quick):
         ("dup N<=2", dict(N=2, K=2, Leaves='{"string"}', UKinds=both, Modes='{"dup"}', Decos="{0, 3}", Script='"paired"')),
         ("dup N<=3 K=1", dict(N=3, K=1, Leaves='{"string"}', UKinds='{"user"}', Modes='{"dup"}', Decos="{3}", Script='"copyfirst"')),
     ]
+    if quick:
+        # every graph of <= 4 nodes in which a non-recursive user type is referenced from two places (through attributes,
+        # alternatives, arrays, maps, other user types), with the transformations that change the sharing (thorough:
+        # part of "hash N<=4", with every transformation)
+        runs.insert(3, ("hash sharing N<=4", dict(N=4, K=2, Leaves='{"string"}', UKinds='{"user"}', Modes='{"hash"}', Decos="{0}",
+                                                  Shapes='"shared"', Ops='"sharing"')))
     if not quick:
         runs += [
             ("hash N<=3 rich", dict(N=3, K=2, Leaves='{"string", "int"}', UKinds='{"user"}', Modes='{"hash"}', Decos="{0, 1}")),
@@ -299,6 +327,9 @@ def gen_runs(quick):
             ("hash N<=3 3 attributes", dict(N=3, K=3, Leaves='{"string"}', UKinds='{"user"}', Modes='{"hash"}', Decos="{0}")),
             ("dup N<=3", dict(N=3, K=2, Leaves='{"string"}', UKinds='{"user"}', Modes='{"dup"}', Decos="{3}", Script='"copyfirst"')),
             ("dup N<=3 results", dict(N=3, K=2, Leaves='{"string"}', UKinds='{"result"}', Modes='{"dup"}', Decos="{2}", Script='"paired"')),
+            # 5 nodes: every graph with DAG sharing, the sharing transformations only
+            ("hash sharing N<=5", dict(N=5, K=2, Leaves='{"string"}', UKinds='{"user"}', Modes='{"hash"}', Decos="{0}",
+                                       Shapes='"shared"', Ops='"sharing"')),
         ]
     return runs
 
@@ -347,12 +378,17 @@ def run(ctx):
         "views, bases, references, default values and examples of attributes are outside the modelled type graph (ResultTypeExpr.Dup shares "
         "the views by design); enum values and validation bounds are treated as immutable scalars",
         "no transformation renames a union, tags a user type's own attribute or turns a user type into a result type: the documentation "
-        "of expr.Hash does not say whether these count",
+        "of expr.Hash does not say whether these count; where a sharing transformation (unshare, redir, hollow) ends up comparing such a pair, "
+        "or two types that are both recursive, nothing is claimed for the flag combinations concerned (mask `na`)",
     ]
+    ctx.cov["sharing_cases"] = {"flag_combinations_decided": 0, "flag_combinations_not_decided_by_the_documentation": 0}
+    shared_graphs.clear()
     # (M) vacuity guards: each named deviation must break an invariant (small models, run side by side)
     small = dict(N=1, K=3, Leaves='{"string"}', UKinds='{"user"}', Decos="{0}")
     guards = [(d, dict(small, Modes='{"hash"}', Deviations='{"%s"}' % d)) for d in DEVS[:2]]
-    guards += [(d, dict(small, Modes='{"dup"}', Decos="{3}", Deviations='{"%s"}' % d)) for d in DEVS[2:]]
+    guards += [(d, dict(small, Modes='{"dup"}', Decos="{3}", Deviations='{"%s"}' % d)) for d in DEVS[2:6]]
+    guards += [(REC, dict(small, N=2, K=1, Modes='{"hash"}', Deviations='{"%s"}' % REC)),
+               (DEVS[7], dict(small, N=3, K=2, Modes='{"hash"}', Shapes='"shared"', Ops='"sharing"', Deviations='{"%s"}' % DEVS[7]))]
     with ThreadPoolExecutor(max_workers=len(guards)) as ex:
         for f in [ex.submit(ctx.mc_expect_violation, "mc/MC_TypeGraph", consts=c, label="MC dev " + d, workers=2) for d, c in guards]:
             f.result()
@@ -399,6 +435,7 @@ def run(ctx):
     ctx.log("trace validated: %d events" % validated)
     flush_reports(ctx)
     ctx.cov["distinct_nontrivial"] = len(nontrivial)
+    ctx.cov["sharing_cases"]["graphs_with_dag_sharing"] = len(shared_graphs)
     ctx.cov["traces_validated_against_impl"] += validated
     if ctx.selftest or not quick:
         selftest(ctx, lines)
@@ -450,6 +487,9 @@ def validate_trace(ctx, lines, nontrivial, maxfail=4):
         if e["ev"] != "reset":
             ctx.cov["evaluations"] += 1
             nontrivial.add(digest(e))
+            if e["ev"] == "hash" and e["t"]["op"] in SHARING:
+                k = "random_" + e["t"]["op"]
+                ctx.cov["sharing_cases"][k] = ctx.cov["sharing_cases"].get(k, 0) + 1
     ctx.sample({"trace_event": json.loads(lines[1])})
     return validated
 
